@@ -15,7 +15,11 @@ use borsh::{BorshDeserialize, BorshSerialize};
 use gmsol_model::{Balance, BaseMarket, BorrowingFeeMarket, LiquidityMarket, PerpMarket, PnlFactorKind, Pool as _, PositionImpactMarket, SwapMarket};
 use gmsol_programs::gmsol_store::accounts::Market as SdkMarket;
 use gmsol_programs::gmsol_store::types::Pool as SdkPool;
-use gmsol_programs::model::MarketModel;
+use gmsol_programs::model::{MarketModel, SwapPricingKind};
+use gmsol_model::{price::{Price, Prices}, LiquidityMarketMutExt, MarketAction, SwapMarketMutExt};
+use gmsol_store::states::Store;
+use gmsol_store::verif::{c40 as hook40, c44 as hook44};
+use anchor_lang::prelude::{Account, AccountInfo, AccountLoader, Pubkey};
 use gmsol_store::states::market::pool::Pool as ProgPool;
 use gmsol_store::states::Market;
 use gmsol_utils::market::{MarketConfigFlag, MarketConfigKey, MarketFlag};
@@ -48,13 +52,15 @@ fn account_bytes(m: &Market) -> Vec<u8> {
     v
 }
 
-fn sdk_decode(bytes: &[u8]) -> Result<MarketModel, String> {
+fn sdk_decode(bytes: &[u8]) -> Result<MarketModel, String> { sdk_decode_supply(bytes, 1_000_000_000) }
+
+fn sdk_decode_supply(bytes: &[u8], supply: u64) -> Result<MarketModel, String> {
     // zero-copy deserialisation casts in place: the body (after the 8-byte discriminator) must be 16-aligned
     let mut buf: Vec<u128> = vec![0; bytes.len() / 16 + 2];
     let raw: &mut [u8] = bytemuck::cast_slice_mut(&mut buf);
     raw[8..8 + bytes.len()].copy_from_slice(bytes);
     let m = SdkMarket::try_deserialize(&mut &raw[8..8 + bytes.len()]).map_err(|e| format!("sdk-decode-error {e}"))?;
-    Ok(MarketModel::from_parts(Arc::new(m), 1_000_000_000))
+    Ok(MarketModel::from_parts(Arc::new(m), supply))
 }
 
 fn debug_fields(s: &str) -> BTreeMap<String, String> {
@@ -277,6 +283,142 @@ fn compare_decoded(bytes: &[u8]) -> Result<usize, String> {
     Ok(a.len() + 1)
 }
 
+// ------------------------------------------------------------------------------------- actions
+/// One deposit / withdrawal / swap on the same market bytes: program side through the REAL
+/// `RevertibleLiquidityMarket` (hook `gmsol_store::verif::c40::run_action`, commit included), SDK
+/// side through `MarketModel`. Returns Ok(outcome tag) when report and resulting state agree.
+fn run_action_case(seed: u64) -> Result<String, String> { quiet(|| run_action_case_inner(seed)) }
+
+/// run `f` with fd 1 pointing at /dev/null (natively `msg!` prints to stdout and would interleave with the protocol)
+fn quiet<T>(f: impl FnOnce() -> T) -> T {
+    use std::io::Write;
+    let _ = std::io::stdout().flush();
+    unsafe {
+        let saved = libc::dup(1);
+        let null = libc::open(b"/dev/null\0".as_ptr() as *const libc::c_char, libc::O_WRONLY);
+        libc::dup2(null, 1);
+        let r = f();
+        let _ = std::io::stdout().flush();
+        libc::dup2(saved, 1);
+        libc::close(saved);
+        libc::close(null);
+        r
+    }
+}
+
+fn run_action_case_inner(seed: u64) -> Result<String, String> {
+    use anchor_spl::token::spl_token;
+    use spl_token::solana_program::program_pack::Pack;
+    let mut r = Rng::new(seed ^ 0xAC71);
+    // clocks far in the future: the SDK reads the wall clock, the program the stubbed sysvar; both see 0 s passed
+    h_store::set_now(4_000_000_000);
+    let pure = r.chance(1, 6);
+    let store_key = h_store::pk(7);
+    let (mt, lt) = (h_store::pk(100), h_store::pk(101));
+    let st = if pure { lt } else { h_store::pk(102) };
+    let mut cfg: Vec<(String, u128)> = Vec::new();
+    let unit: u128 = 100_000_000_000_000_000_000;
+    let pick_factor = |r: &mut Rng| -> u128 { match r.below(4) { 0 => 0, 1 => unit / 10_000 * r.range(1, 50) as u128, 2 => unit / 1_000_000_000 * r.range(1, 900) as u128, _ => unit / 100_000 * r.range(1, 300) as u128 } };
+    for k in ["swap_impact_positive_factor", "swap_impact_negative_factor", "swap_fee_factor_for_positive_impact", "swap_fee_factor_for_negative_impact"] {
+        cfg.push((k.to_string(), pick_factor(&mut r)));
+    }
+    cfg.push(("swap_impact_exponent".into(), if r.chance(1, 2) { unit } else { 2 * unit }));
+    cfg.push(("swap_fee_receiver_factor".into(), unit / 100 * r.range(0, 100) as u128));
+    for k in ["max_pool_amount_for_long_token", "max_pool_amount_for_short_token"] { cfg.push((k.to_string(), if r.chance(1, 8) { r.range(1, 9) as u128 * 100_000_000_000 } else { u64::MAX as u128 })); }
+    for k in ["max_pool_value_for_deposit_for_long_token", "max_pool_value_for_deposit_for_short_token"] { cfg.push((k.to_string(), if r.chance(1, 8) { unit * r.range(1, 2_000_000) as u128 } else { u128::MAX / 4 })); }
+    cfg.push(("reserve_factor".into(), unit / 100 * r.range(1, 100) as u128));
+    let info = h_store::zero_copy_account::<Market>(h_store::pk(5000), gmsol_store::ID, |m| {
+        m.init(255, store_key, "m", mt, lt, lt, st, true).unwrap();
+        for (k, v) in &cfg { *m.get_config_mut(k).unwrap() = *v; }
+    });
+    let info: &'static AccountInfo<'static> = Box::leak(Box::new(info));
+    let loader = AccountLoader::<Market>::try_from(info).map_err(|e| format!("loader {e}"))?;
+    let ev: &'static AccountInfo<'static> = Box::leak(Box::new(h_store::leak_account(h_store::pk(8), gmsol_store::ID, 0, false, false)));
+    let amt = |r: &mut Rng| -> u128 { match r.below(5) { 0 => 0, 1 => r.range(1, 1000) as u128, _ => r.range(1, 900) as u128 * 1_000_000_000 } };
+    let (liq_l, liq_s0) = (amt(&mut r), amt(&mut r));
+    let liq_s = if pure { 0 } else { liq_s0 };
+    let imp = |r: &mut Rng| -> u128 { if r.chance(1, 2) { 0 } else { r.range(1, 5_000_000_000) as u128 } };
+    let (imp_l, imp_s0) = (imp(&mut r), imp(&mut r));
+    let imp_s = if pure { 0 } else { imp_s0 };
+    hook44::seed_market(&loader, ev, (liq_l, liq_s), (imp_l, imp_s), ((liq_l + imp_l) as u64, (liq_s + imp_s) as u64)).map_err(|e| format!("seed {e}"))?;
+    let fee = |r: &mut Rng| -> u128 { if r.chance(2, 3) { 0 } else { r.range(1, 1_000_000) as u128 } };
+    let (f_l, f_s0) = (fee(&mut r), fee(&mut r));
+    hook44::seed_fee_and_collateral(&loader, ev, (f_l, if pure { 0 } else { f_s0 }), (0, 0), (0, 0)).map_err(|e| format!("seed2 {e}"))?;
+    let supply: u64 = if liq_l + liq_s == 0 { 0 } else { r.range(1, 2_000_000_000_000) };
+    // accounts around the market
+    let store_info: &'static AccountInfo<'static> = Box::leak(Box::new(h_store::zero_copy_account::<Store>(store_key, gmsol_store::ID, |s: &mut Store| { s.init(h_store::pk(1), "", 255, h_store::pk(2), h_store::pk(3)).unwrap(); })));
+    let store_loader = AccountLoader::<Store>::try_from(store_info).map_err(|e| format!("store {e}"))?;
+    let mint_info: &'static AccountInfo<'static> = Box::leak(Box::new(h_store::leak_account(mt, spl_token::ID, spl_token::state::Mint::LEN, false, true)));
+    {
+        let mint = spl_token::state::Mint { mint_authority: Some(store_key).into(), supply, decimals: 9, is_initialized: true, freeze_authority: None.into() };
+        spl_token::state::Mint::pack(mint, &mut mint_info.try_borrow_mut_data().unwrap()).map_err(|e| format!("mint {e}"))?;
+    }
+    let mint_acc: Account<'static, anchor_spl::token::Mint> = Account::try_from(mint_info).map_err(|e| format!("mint-account {e}"))?;
+    let tp: &'static AccountInfo<'static> = Box::leak(Box::new(h_store::leak_account(spl_token::ID, h_store::pk(0), 0, false, false)));
+    let recv: &'static AccountInfo<'static> = Box::leak(Box::new(h_store::leak_account(h_store::pk(9), spl_token::ID, 0, false, true)));
+    // prices (unit prices with a small spread)
+    let price = |r: &mut Rng, base: u128| -> Price<u128> { let min = base * r.range(1, 5000) as u128; Price { min, max: min + min / r.range(50, 5000) as u128 } };
+    let long_price = price(&mut r, 100_000_000_000);
+    let short_price = if pure { long_price } else { price(&mut r, 20_000_000_000) };
+    let prices = Prices { index_token_price: long_price, long_token_price: long_price, short_token_price: short_price };
+    // the action
+    let kind = r.below(3);
+    let a1 = match r.below(4) { 0 => 0u128, 1 => r.range(1, 5000) as u128, _ => r.range(1, 400) as u128 * 500_000_000 };
+    let a2 = if r.chance(1, 3) { 0u128 } else { r.range(1, 400) as u128 * 500_000_000 };
+    let side = r.chance(1, 2);
+    let wd = if supply == 0 { 0 } else { r.range(0, supply) as u128 };
+    // bytes BEFORE the action, for the SDK
+    let bytes_before = info.try_borrow_data().unwrap().to_vec();
+    let mut sdk = sdk_decode_supply(&bytes_before, supply)?;
+    let sdk_res: Result<String, String> = match kind {
+        0 => sdk.with_swap_pricing(SwapPricingKind::Deposit, |m| m.deposit(a1, a2, prices).and_then(|d| d.execute()).map(|x| format!("{x:?}")).map_err(|e| e.to_string())),
+        1 => sdk.with_swap_pricing(SwapPricingKind::Withdrawal, |m| m.withdraw(wd, prices).and_then(|d| d.execute()).map(|x| format!("{x:?}")).map_err(|e| e.to_string())),
+        _ => sdk.with_swap_pricing(SwapPricingKind::Swap, |m| m.swap(side, a1, prices).and_then(|d| d.execute()).map(|x| format!("{x:?}")).map_err(|e| e.to_string())),
+    };
+    let action = match kind { 0 => hook40::Action::Deposit(a1, a2), 1 => hook40::Action::Withdraw(wd), _ => hook40::Action::Swap(side, a1) };
+    let _ = h_store::take_events();
+    let prog_res = hook40::run_action(&loader, &store_loader, &mint_acc, tp, recv, ev, prices, action);
+    let _ = h_store::take_events();
+    let what = ["deposit", "withdraw", "swap"][kind as usize];
+    let rows = all_rows();
+    match (&prog_res, &sdk_res) {
+        (Ok(p), Ok(s)) => {
+            if p != s { return Err(format!("{what}: reports differ: program `{p}` sdk `{s}`")); }
+            let prog_after = loader.load().map_err(|e| format!("load {e}"))?;
+            let a = dump(&*prog_after, &|x| prog_after.max_pool_value_for_deposit(x).ok(), &rows);
+            let b = dump(&sdk, &|x| sdk.max_pool_value_for_deposit(x).ok(), &rows);
+            for ((ka, va), (_, vb)) in a.iter().zip(b.iter()) { if va != vb { return Err(format!("{what}: state after differs at {ka}: program `{va}` sdk `{vb}`")); } }
+            Ok(format!("{what}.ok"))
+        }
+        (Err(_), Err(_)) => {
+            // a failed (uncommitted) action must leave the program's observable market state untouched
+            // (the revertible buffer's revision counter may move: C21)
+            let before: Market = bytemuck::pod_read_unaligned(&bytes_before[8..]);
+            let after = loader.load().map_err(|e| format!("load {e}"))?;
+            let a = dump(&before, &|x| before.max_pool_value_for_deposit(x).ok(), &rows);
+            let b = dump(&*after, &|x| after.max_pool_value_for_deposit(x).ok(), &rows);
+            if a != b { return Err(format!("{what}: failed on both sides but the program's observable market state changed")); }
+            Ok(format!("{what}.err"))
+        }
+        (Ok(p), Err(e)) => Err(format!("{what}: program ok `{p}` but sdk failed `{e}`")),
+        (Err(e), Ok(s)) => Err(format!("{what}: sdk ok `{s}` but program failed `{e}`")),
+    }
+}
+
+// ------------------------------------------------------------------------------------- layouts
+macro_rules! sizes { ($($n:ident),* $(,)?) => { vec![$((stringify!($n), std::mem::size_of::<gmsol_store::states::$n>(), std::mem::size_of::<gmsol_programs::gmsol_store::accounts::$n>())),*] } }
+/// (type name, size of the program's type, size of the SDK's `declare_program!` type)
+fn account_sizes() -> Vec<(&'static str, usize, usize)> {
+    sizes![Market, Store, Position, Oracle, Order, Deposit, Withdrawal, Shift, UserHeader, Glv, TokenMapHeader, PriceFeed, GlvDeposit, GlvWithdrawal, GlvShift]
+}
+
+/// first changed byte and number of changed bytes between two images
+fn changed(a: &[u8], b: &[u8]) -> Option<(usize, usize)> {
+    let first = a.iter().zip(b.iter()).position(|(x, y)| x != y)?;
+    let last = a.iter().zip(b.iter()).rposition(|(x, y)| x != y)?;
+    Some((first, last - first + 1))
+}
+
 fn exec_inner(t: &[&str]) -> Option<String> {
     Some(match t {
         ["c40", "param", closed, mask, wk, v, method, variant, side, param] => {
@@ -288,6 +430,28 @@ fn exec_inner(t: &[&str]) -> Option<String> {
             read_param(&sdk, &|s| sdk.max_pool_value_for_deposit(s).ok(), method, variant, side, param)
         }
         ["c40", "poolop", side, pure, l, s, op, a, b] => exec_poolop(side, *pure == "1", l.parse().ok()?, s.parse().ok()?, op, a, b)?,
+        ["c40", "layout", "size", ty] => match account_sizes().into_iter().find(|(n, _, _)| n == ty) { Some((_, p, s)) => format!("ok {p} {s}"), None => "notype".into() },
+        ["c40", "layout", "key", key] => {
+            if key.parse::<MarketConfigKey>().is_err() { return Some("nokey".into()); }
+            let mut m = Box::<Market>::default();
+            let before = account_bytes(&m);
+            *m.get_config_mut(key).ok()? = u128::MAX;
+            let after = account_bytes(&m);
+            // the SDK must read the same bytes back through its own key table
+            let sdk = sdk_decode(&after).ok()?;
+            let k: MarketConfigKey = key.parse().ok()?;
+            if sdk.config.get(k).copied() != Some(u128::MAX) { return Some("sdk-mismatch".into()); }
+            match changed(&before, &after) { Some((o, l)) => format!("ok {o} {l}"), None => "unchanged".into() }
+        }
+        ["c40", "layout", "flag", flag] => {
+            if flag.parse::<MarketConfigFlag>().is_err() { return Some("noflag".into()); }
+            let mut m = Box::<Market>::default();
+            let before = account_bytes(&m);
+            m.set_config_flag(flag, true).ok()?;
+            let after = account_bytes(&m);
+            match changed(&before, &after) { Some((o, 1)) => format!("ok {o} {}", before[o] ^ after[o]), Some((o, l)) => format!("wide {o} {l}"), None => "unchanged".into() }
+        }
+        ["c40", "action", seed] => match run_action_case(seed.parse().ok()?) { Ok(_) => "same".into(), Err(e) => format!("diff {e}") },
         ["c40", "randbytes", seed] => match compare_decoded(&random_market_bytes(seed.parse().ok()?)) { Ok(_) => "same".into(), Err(e) => format!("diff {e}") },
         _ => return None,
     })
@@ -328,13 +492,16 @@ fn oracle(req: &str, resp: &str) -> Verdict {
             }
             Verdict::Fail(format!("Pool::{op} on (pure={pure}, {lv}, {sv}) args ({a}, {b}): {side} `{resp}` vs {other} `{o}`"))
         }
+        ["c40", "layout", "size", _] => { let p: Vec<&str> = resp.split(' ').collect(); if p.len() == 3 && p[0] == "ok" && p[1] == p[2] { Verdict::Ok } else { Verdict::Fail(format!("account size differs between the program and the SDK declaration: {resp}")) } }
+        ["c40", "layout", _, _] => if resp.starts_with("ok ") { Verdict::Ok } else { Verdict::Fail(format!("a write through the program's key is not where the SDK layout reads it: {resp}")) },
+        ["c40", "action", _] => if resp == "same" { Verdict::Ok } else { Verdict::Fail(format!("an action gives different results on the program's market and on the SDK model: {resp}")) },
         ["c40", "randbytes", _] => if resp == "same" { Verdict::Ok } else { Verdict::Fail(format!("random account bytes decode differently: {resp}")) },
         _ => Verdict::NoOracle,
     }
 }
 
 fn main() {
-    h_store::install_stubs();
+    h_store::install_capturing_stubs();
     let cli = cli();
     let mut out = Out::new();
     std::panic::set_hook(Box::new(|_| {}));
@@ -375,7 +542,11 @@ fn main() {
             };
             v.push(format!("c40 poolop {side} {pure} {l} {s} {op} {a} {b}"));
         }
+        for (n, _, _) in account_sizes() { v.push(format!("c40 layout size {n}")); }
+        for k in &keys { v.push(format!("c40 layout key {k}")); }
+        for f in MarketConfigFlag::iter() { v.push(format!("c40 layout flag {f}")); }
         for i in 0..(extra / 4).max(10) { v.push(format!("c40 randbytes {}", cli.seed * 100_000 + i)); }
+        for i in 0..extra * 2 { v.push(format!("c40 action {}", cli.seed * 1_000_000 + i)); }
         v
     };
     for req in reqs {
@@ -383,6 +554,7 @@ fn main() {
         let mut it = req.split(' ');
         let op = it.nth(1).unwrap_or("?").to_string();
         out.stat(&format!("op.{op}"));
+        if op == "action" { if let Some(seed) = req.split(' ').nth(2).and_then(|x| x.parse::<u64>().ok()) { if let Ok(tag) = run_action_case(seed) { out.stat(&format!("action.{tag}")); } } }
         if op == "poolop" { out.stat(&format!("poolop.{}", req.split(' ').nth(6).unwrap_or("?"))); }
         out.stat(&format!("resp.{}", resp.split(' ').next().unwrap_or("?")));
         if resp == "panic" { out.oracle_fail("panicked", &req); }
